@@ -129,6 +129,7 @@ func runC12(c *Ctx) {
 		c.Check("C12.A", name+":every-path-answers", p, fn.Pos(), hit == nil, "every path from entry to a return passes http.Error / WriteHeader / Write / delegation on the handler's own writer", "the "+name+" endpoint has a path that returns without producing an HTTP answer ("+PathString(p, path)+", return at "+posStr(p, hit)+")")
 		// an error answer ends the call: nothing else is answered or sent after http.Error
 		dbl := ""
+		dels := Calls(fn, "(*sync.Map).Delete", "(*sync.Map).LoadAndDelete", "(*sync.Map).CompareAndDelete")
 		EachInstr(fn, func(i ssa.Instruction) {
 			if !IsCall(i, "net/http.Error") {
 				return
@@ -140,7 +141,17 @@ func runC12(c *Ctx) {
 				if _, ok := producesResponse(j, w); ok {
 					return true
 				}
-				return IsCall(j, "(*"+ModPath+"/agent/websockets.Connection).SendClientMessage", "(*"+ModPath+"/agent/websockets.Connection).Close", "(*sync.Map).Store")
+				if IsCall(j, "(*"+ModPath+"/agent/websockets.Connection).Close") {
+					// closing the connection of a session that this very path forgets (the forget itself is
+					// judged by the forget-site rule: close and failed polls only) is part of forgetting it
+					for _, d := range dels {
+						if Dominates(d, j) {
+							return false
+						}
+					}
+					return true
+				}
+				return IsCall(j, "(*"+ModPath+"/agent/websockets.Connection).SendClientMessage", "(*sync.Map).Store")
 			}}).FromInstr(i)
 			if h != nil && !InLoop(i.Block()) {
 				dbl = "after the error answer at " + p.Pos(i.Pos()) + " the handler goes on to " + p.Pos(h.Pos())
@@ -169,6 +180,18 @@ func runC12(c *Ctx) {
 			if cc := CallOf(i); cc != nil && CalleeName(cc) == "(net/http.ResponseWriter).WriteHeader" {
 				if _, isC := ConstInt(Args(cc)[1]); !isC {
 					bad = "non-constant status at " + p.Pos(i.Pos())
+				}
+			}
+			// http.Error with a status that is not one constant: every value it can take must be an allowed constant
+			if cc := CallOf(i); cc != nil && CalleeName(cc) == "net/http.Error" && i.Parent() == fn {
+				if _, isC := ConstInt(PArgs(cc)[2]); !isC {
+					for _, r := range Roots(PArgs(cc)[2]) {
+						if n, okc := ConstInt(r); okc && allowed[n] {
+							used[n] = true
+						} else {
+							bad = "a status taken from " + PathOf(r) + " at " + p.Pos(i.Pos())
+						}
+					}
 				}
 			}
 		})
